@@ -11,8 +11,10 @@ digests are recomputed by the harness on every run (props/C26.py).
 JavaScript value of the pretty text embedded in query_text.ts; both are renderings of the same
 selection tree (`C26_same_tree`), and they agree up to insignificant characters outside string
 literals when no name or string contains a quote, a backslash or a line terminator
-(`C26_same_partial`).  With a backslash escape in a string argument the two differ
-(`C26_witness_backslash`: the embedded text is evaluated by JavaScript, the recorded one is not).
+(`C26_same_partial`).  A backslash in a string argument used to make the two differ (the
+embedded text is evaluated by JavaScript); since /repo dc59a0f the text is escaped when embedded
+(`C26_backslash_repaired`).  The full statement still fails for a string holding an unescaped
+`"` (`C26_witness_quote`; not writable in an iso literal).
 -/
 import IsoVerif.Lemmas.PrintersPersisted
 
@@ -52,29 +54,46 @@ theorem C26_same_tree (kind name vt : Str) (m : SelMap) :
         = queryHeader .pretty kind name vt ++ renderTrees .pretty 1 (queryTree m) ++ [125] :=
   ⟨printQueryCore_render .compact kind name vt m, printQueryCore_render .pretty kind name vt m⟩
 
-/-- full statement: the recorded document equals what the non-persisted build sends, up to
+/-- full statement: the recorded document equals what the non-persisted build sends — the
+JavaScript value of the text embedded in query_text.ts (`escapeJsBody`, /repo dc59a0f) — up to
 insignificant characters -/
 def C26_same_statement : Prop :=
   ∀ (kind name vt : Str) (m : SelMap) (sent : Str),
-    jsSingleQuotedValue (printQueryCore .pretty kind name vt m) = some sent →
+    jsSingleQuotedValue (escapeJsBody (printQueryCore .pretty kind name vt m)) = some sent →
     stripInsignificant sent = stripInsignificant (printQueryCore .compact kind name vt m)
 
 /-- holds when names and strings are free of quotes, backslashes and line terminators -/
 theorem C26_same_partial (kind name vt : Str) (m : SelMap)
     (hk : isPlain kind = true) (hn : isPlain name = true) (hv : isPlain vt = true)
     (hm : Tree.plainList (queryTree m) = true) :
-    ∃ t, jsSingleQuotedSimple (printQueryCore .pretty kind name vt m) = some t ∧
+    ∃ t, jsSingleQuotedSimple (escapeJsBody (printQueryCore .pretty kind name vt m)) = some t ∧
       stripInsignificant t = stripInsignificant (printQueryCore .compact kind name vt m) :=
-  compact_pretty_same kind name vt m hk hn hv hm
+  compact_embedded_same kind name vt m hk hn hv hm
 
-/-- `label(lang: "a\\nb")` (p13_escape): the embedded text is evaluated by JavaScript (`\\` ↦ `\`),
-the recorded document is not. -/
-theorem C26_witness_backslash : ¬ C26_same_statement := by
+def backslashMap : SelMap :=
+  [(⟨0, .serverField cs!"label" [(cs!"lang", .str cs!"a\\\\nb")]⟩,
+    Sel.scalar true cs!"label" [(cs!"lang", .str cs!"a\\\\nb")])]
+
+/-- `label(lang: "a\\nb")` (p13_escape; F13 family, repaired by dc59a0f): the backslashes of the
+string argument are escaped when the text is embedded, so JavaScript gives back the very text the
+persisted document records.  (Before the repair the embedded text was evaluated, `\\\\` ↦ `\\`, and the
+two documents differed.) -/
+theorem C26_backslash_repaired :
+    jsSingleQuotedValue (escapeJsBody (printQueryCore .pretty cs!"query" cs!"Home" [] backslashMap))
+      = some (cs!"query Home {  label____lang___s_a__nb: label(lang: \"a\\\\nb\"),}")
+    ∧ stripInsignificant (cs!"query Home {  label____lang___s_a__nb: label(lang: \"a\\\\nb\"),}")
+      = stripInsignificant (printQueryCore .compact cs!"query" cs!"Home" [] backslashMap) := by
+  constructor <;> decide +kernel
+
+/-- A string argument holding an unescaped `"` (not writable in an iso literal: the lexer wants
+`\\"`): what follows it is inside a string literal for a GraphQL lexer, and there the separators of
+the two formats are significant. -/
+theorem C26_witness_quote : ¬ C26_same_statement := by
   intro h
   have := h cs!"query" cs!"Home" []
-    [(⟨0, .serverField cs!"label" [(cs!"lang", .str cs!"a\\\\nb")]⟩,
-      Sel.scalar true cs!"label" [(cs!"lang", .str cs!"a\\\\nb")])]
-    (cs!"query Home {  label____lang___s_a__nb: label(lang: \"a\\nb\"),}") (by decide +kernel)
+    [(⟨0, .serverField cs!"label" [(cs!"lang", .str cs!"a\"b")]⟩,
+      Sel.scalar true cs!"label" [(cs!"lang", .str cs!"a\"b")])]
+    (cs!"query Home {  label____lang___s_a_b: label(lang: \"a\"b\"),}") (by decide +kernel)
   revert this
   decide +kernel
 
